@@ -1,6 +1,7 @@
 import PkgModel.Generated.PySrc
 import PkgModel.Specifier
 import PkgProofs.Props.Src.SpecEqual
+import PkgProofs.Lemmas.SrcRobust
 /-!
 # Translated source of `Specifier.prereleases`, `.contains`, `.filter` = the model (`S.Spec.prereleases/contains/filter`)
 -/
@@ -20,62 +21,28 @@ theorem Specifier.operator_eq_model (sp : Spec) (ov) : Gen.PySrc.Specifier.opera
 theorem Specifier.version_eq_model (sp : Spec) (ov) : Gen.PySrc.Specifier.version (ofSpec sp ov) = .ok (.str sp.ver) := by
   simp [Gen.PySrc.Specifier.version]
 
-/-- `try: parsed = Version(t) except InvalidVersion: return False` followed by `if parsed.is_prerelease: return True`,
-`return False` — as Lean's `do` notation elaborates the early returns -/
-theorem prerelease_body (t : Str) :
-    (do
-      let e ←
-        tryCatch
-            (do
-              let parsed_version ← mkVersion "Version" (PyVal.str t)
-              ExceptT.run ((pure () : StateT PyVal (ExceptT PyVal M) Unit) parsed_version))
-            fun __e4 =>
-            if catches "InvalidVersion" __e4 = true then (EarlyReturnT.return (PyVal.bool false) : M (Except PyVal (Unit × PyVal)))
-            else do
-              let __r ← (throw __e4 : M Unit)
-              ExceptT.run ((pure __r : StateT PyVal (ExceptT PyVal M) Unit) PyVal.unbound)
-      EarlyReturn.runK e (fun r => (Except.ok r : M PyVal)) fun p => do
-          let __do_lift ← Gen.PySrc.Version.is_prerelease p.snd
-          if truthy __do_lift = true then Except.ok (PyVal.bool true) else Except.ok (PyVal.bool false)) =
-      Except.map PyVal.bool (match scan t with | some v => Except.ok v.isPre | none => Except.ok false) := by
-  simp only [mkVersion_eq_model, S.version]
-  cases hsc : scan t with
-  | none => rfl
-  | some v =>
-    simp only [Except.map, ok_bind]
-    show (do let x ← Gen.PySrc.Version.is_prerelease (ofVer "Version" v); if truthy x = true then Except.ok (PyVal.bool true) else Except.ok (PyVal.bool false)) = _
-    rw [Version.is_prerelease_eq_model]
-    cases v.isPre <;> rfl
-
-/-- `Specifier.prereleases` -/
+/-- `Specifier.prereleases`.  The proof evaluates the translated block symbolically (`src_simp`): it does not depend on how
+the operator test is spelled (list / set / named constant, nested or early return), on the order of the two `.*` tests, nor
+on where the `try` returns. -/
 theorem Specifier.prereleases_eq_model (sp : Spec) (ov : Option Bool) :
     Gen.PySrc.Specifier.prereleases (ofSpec sp ov) = (sp.prereleases ov).map PyVal.bool := by
   unfold Gen.PySrc.Specifier.prereleases Spec.prereleases
   cases ov with
   | some b => cases b <;> simp [ofOptBool, Except.map, pure, Except.pure]
   | none =>
-    simp only [getattr_spec_pre, ofOptBool, ok_bind, isNone_none, Bool.not_true, Bool.false_eq_true, if_false,
-      getattr_spec_spec, unpack2, iterate_tuple, pure_ok]
     obtain ⟨op, ver⟩ := sp
     have hsl : getslice (PyVal.str ver) PyVal.none (PyVal.int (-2)) = .ok (.str (ver.take (ver.length - 2))) :=
       getslice_str_neg ver 2 (by omega)
-    have hmem : ∀ o : S.Op, contains (PyVal.list [PyVal.str (ofString "=="), PyVal.str (ofString ">="), PyVal.str (ofString "<="),
-        PyVal.str (ofString "~="), PyVal.str (ofString "==="), PyVal.str (ofString ">"), PyVal.str (ofString "<")])
-        (PyVal.str o.str) = .ok (o != .ne) := by
-      intro o; cases o <;> rfl
-    simp only [hmem, ok_bind]
-    cases op
-    case ne => rfl
-    case eq =>
-      simp only [S.Op.str, PyRt.eq, eq_str, beq_self_eq_true, truthy_bool, if_true, show ofString ".*" = [46, 42] from rfl,
-        str_endswith_str, ok_bind, show (Op.eq != Op.ne) = true from rfl, show (Op.eq == Op.eq) = true from rfl, Bool.true_and]
-      cases endsWith ver [46, 42]
-      · exact prerelease_body ver
-      · simp only [if_true, hsl, ok_bind]
-        exact prerelease_body _
-    all_goals
-      simp only [S.Op.str, PyRt.eq, eq_str, truthy_bool, ok_bind, pure_ok]
-      exact prerelease_body ver
+    have hdot : ofString ".*" = [46, 42] := rfl
+    have hmk : ∀ t : Str, mkVersion "Version" (.str t) = (match scan t with | some v => .ok (ofVer "Version" v) | none => .error "InvalidVersion") := by
+      intro t; simp only [mkVersion]; cases scan t <;> rfl
+    cases op <;> cases he : endsWith ver [46, 42] <;>
+      simp only [getattr_spec_pre, ofOptBool, ok_bind, isNone_none, getattr_spec_spec, unpack2, iterate_tuple, pure_ok, S.Op.str,
+        str_endswith_str, hdot, he, PyRt.eq, eq_str, truthy_bool, hsl, hmk] <;>
+      (first
+        | (cases hsc : scan ver <;> src_simp [hsc, pure, Except.pure, Version.is_prerelease_eq_model, catches] <;> done)
+        | (cases hsc : scan (List.take (ver.length - 2) ver) <;>
+            src_simp [hsc, pure, Except.pure, Version.is_prerelease_eq_model, catches] <;> done))
 
 theorem _coerce_version_eq_model (v : Ver) : Gen.PySrc._coerce_version (ofVer "Version" v) = .ok (ofVer "Version" v) := by
   have : isinstance (ofVer "Version" v) ["Version", "_TrimmedRelease"] = true := by simp [isinstance, className_ofVer]
@@ -136,32 +103,32 @@ abbrev ofV (v : Ver) : PyVal := ofVer "Version" v
 
 abbrev FState := PyVal × List PyVal × PyVal × PyVal
 
-/-- what one iteration of the loop of `filter` does, in model terms; state = `(parsed_version, __yield, yielded,
-found_prereleases)` -/
-def StepSpec (sp : Spec) (ov pre' : Option Bool) (body : PyVal → FState → M (ForInStep FState)) : Prop :=
+/-- what one iteration of the loop of `filter` does, in model terms; state = `enc (parsed_version, __yield, yielded,
+found_prereleases)` — `enc` says in which order the translated loop carries the four locals -/
+def StepSpec {σ : Type} (enc : FState → σ) (sp : Spec) (ov pre' : Option Bool) (body : PyVal → σ → M (ForInStep σ)) : Prop :=
   ∀ v : Ver, WF v → ∀ (pv0 : PyVal) (ys fs : List Ver),
-    body (ofV v) (pv0, ys.map ofV, PyVal.bool (!ys.isEmpty), PyVal.list (fs.map ofV)) =
+    body (ofV v) (enc (pv0, ys.map ofV, PyVal.bool (!ys.isEmpty), PyVal.list (fs.map ofV))) =
       (do let c ← sp.contains ov v (some (pre'.getD true))
           if c then do
             let deferred ← (if v.isPre then (if pre' == some true then pure false else do
                   let own ← sp.prereleases ov
                   pure (!own)) else pure false : R Bool)
-            if deferred then pure (ForInStep.yield (ofV v, ys.map ofV, PyVal.bool (!ys.isEmpty), PyVal.list ((fs ++ [v]).map ofV)))
-            else pure (ForInStep.yield (ofV v, (ys ++ [v]).map ofV, PyVal.bool (!(ys ++ [v]).isEmpty), PyVal.list (fs.map ofV)))
-          else pure (ForInStep.yield (ofV v, ys.map ofV, PyVal.bool (!ys.isEmpty), PyVal.list (fs.map ofV))))
+            if deferred then pure (ForInStep.yield (enc (ofV v, ys.map ofV, PyVal.bool (!ys.isEmpty), PyVal.list ((fs ++ [v]).map ofV))))
+            else pure (ForInStep.yield (enc (ofV v, (ys ++ [v]).map ofV, PyVal.bool (!(ys ++ [v]).isEmpty), PyVal.list (fs.map ofV))))
+          else pure (ForInStep.yield (enc (ofV v, ys.map ofV, PyVal.bool (!ys.isEmpty), PyVal.list (fs.map ofV)))))
 
-theorem filter_loop (sp : Spec) (ov pre' : Option Bool) (body : PyVal → FState → M (ForInStep FState))
-    (hstep : StepSpec sp ov pre' body) (items : List Ver) (hw : ∀ v ∈ items, WF v) :
+theorem filter_loop {σ : Type} (enc : FState → σ) (sp : Spec) (ov pre' : Option Bool) (body : PyVal → σ → M (ForInStep σ))
+    (hstep : StepSpec enc sp ov pre' body) (items : List Ver) (hw : ∀ v ∈ items, WF v) :
     ∀ (pv0 : PyVal) (ys fs : List Ver),
     (match sp.filterLoop ov pre' (items.map fun v => (v, v)) ys fs with
      | .ok (y', f') => ∃ pv',
-        forIn (items.map ofV) (pv0, ys.map ofV, PyVal.bool (!ys.isEmpty), PyVal.list (fs.map ofV)) body
-          = .ok (pv', y'.map ofV, PyVal.bool (!y'.isEmpty), PyVal.list (f'.map ofV))
+        forIn (items.map ofV) (enc (pv0, ys.map ofV, PyVal.bool (!ys.isEmpty), PyVal.list (fs.map ofV))) body
+          = .ok (enc (pv', y'.map ofV, PyVal.bool (!y'.isEmpty), PyVal.list (f'.map ofV)))
      | .error e =>
-        forIn (items.map ofV) (pv0, ys.map ofV, PyVal.bool (!ys.isEmpty), PyVal.list (fs.map ofV)) body
+        forIn (items.map ofV) (enc (pv0, ys.map ofV, PyVal.bool (!ys.isEmpty), PyVal.list (fs.map ofV))) body
           = .error e) := by
   induction items with
-  | nil => intro pv0 ys fs; simp [Spec.filterLoop]
+  | nil => intro pv0 ys fs; simp only [Spec.filterLoop, List.map_nil, List.forIn_nil]; exact ⟨pv0, rfl⟩
   | cons v rest ih =>
     intro pv0 ys fs
     have hv : WF v := hw v (List.mem_cons_self ..)
@@ -218,18 +185,18 @@ theorem kw_value (p : Option Bool) :
       .ok (PyVal.bool (p.getD true)) := by
   cases p <;> rfl
 
-theorem filter_aux (sp : Spec) (ov pre' : Option Bool) (body : PyVal → FState → M (ForInStep FState))
-    (hstep : StepSpec sp ov pre' body) (items : List Ver) (hw : ∀ v ∈ items, WF v) :
-    (do let __s ← forIn (items.map ofV) (PyVal.unbound, ([] : List PyVal), PyVal.bool false, PyVal.list []) body
-        if (!truthy __s.snd.snd.fst && truthy __s.snd.snd.snd) = true then do
-            let __do_lift ← iterate __s.snd.snd.snd
-            let __s ← forIn __do_lift __s.snd.fst fun version __s => pure (ForInStep.yield (__s ++ [version]))
-            pure (PyVal.iter __s)
-          else pure (PyVal.iter __s.snd.fst)) =
+/-- the loop of `filter` followed by whatever the source does with its final state (`K`): nothing here depends on how the
+body or the tail are spelled, only on what they compute (`hstep`, `hK`) -/
+theorem filter_aux {σ : Type} (enc : FState → σ) (sp : Spec) (ov pre' : Option Bool) (body : PyVal → σ → M (ForInStep σ)) (K : σ → M PyVal)
+    (hstep : StepSpec enc sp ov pre' body)
+    (hK : ∀ (pv : PyVal) (ys fs : List Ver), K (enc (pv, ys.map ofV, PyVal.bool (!ys.isEmpty), PyVal.list (fs.map ofV))) =
+      .ok (PyVal.iter ((if (ys.isEmpty && !fs.isEmpty) = true then fs else ys).map ofV)))
+    (items : List Ver) (hw : ∀ v ∈ items, WF v) :
+    (forIn (items.map ofV) (enc (PyVal.unbound, ([] : List PyVal), PyVal.bool false, PyVal.list [])) body >>= K) =
       Except.map (fun l => PyVal.iter (List.map ofV l)) (do
         let __x ← sp.filterLoop ov pre' (items.map fun v => (v, v)) [] []
         if (__x.fst.isEmpty && !__x.snd.isEmpty) = true then pure __x.snd else pure __x.fst) := by
-  have hl := filter_loop sp ov pre' body hstep items hw PyVal.unbound [] []
+  have hl := filter_loop enc sp ov pre' body hstep items hw PyVal.unbound [] []
   cases hf : sp.filterLoop ov pre' (items.map fun v => (v, v)) [] [] with
   | error e =>
     rw [hf] at hl
@@ -241,67 +208,41 @@ theorem filter_aux (sp : Spec) (ov pre' : Option Bool) (body : PyVal → FState 
     obtain ⟨pv', hl⟩ := hl
     simp only [List.map_nil, List.isEmpty_nil, Bool.not_true] at hl
     rw [hl]
-    simp only [ok_bind, truthy_bool, Bool.not_not, truthy_list, List.isEmpty_map, Except.map]
-    cases hc : (y'.isEmpty && !f'.isEmpty)
-    · simp [pure, Except.pure]
-    · simp only [if_true, iterate_list, ok_bind]
-      rw [forIn_append_ok _ _ _ (fun x => [x]) (by intro x _ s; rfl)]
-      have hy : y' = [] := by
-        cases y' with
-        | nil => rfl
-        | cons a as => simp at hc
-      simp [hy, pure, Except.pure, List.flatMap_singleton']
+    simp only [ok_bind, hK, Except.map]
+    cases hc : (y'.isEmpty && !f'.isEmpty) <;> simp [pure, Except.pure]
 
-/-- `Specifier.filter(iterable, prereleases)` for an iterable of `Version` objects: the versions yielded, in order -/
+/-- appending the items of a list one by one (`for v in xs: yield v`) -/
+theorem forIn_yield_each {α} (f : α → PyVal) (xs : List α) (acc : List PyVal) :
+    forIn xs acc (fun a s => (Except.ok (ForInStep.yield (s ++ [f a])) : M (ForInStep (List PyVal)))) = .ok (acc ++ xs.map f) := by
+  induction xs generalizing acc with
+  | nil => simp
+  | cons x xs ih => simp only [List.forIn_cons, ok_bind, ih, List.map_cons, List.append_assoc, List.cons_append, List.nil_append]
+
+/-- `Specifier.filter(iterable, prereleases)` for an iterable of `Version` objects: the versions yielded, in order.
+The proof fixes the (finitely many) values of the two overrides, evaluates the translated block symbolically and hands the
+loop to `filter_aux`; it names neither the loop body nor the code after the loop. -/
 theorem Specifier.filter_eq_model (sp : Spec) (ov pre : Option Bool) (items : List Ver) (hw : ∀ v ∈ items, WF v) :
     Gen.PySrc.Specifier.filter (ofSpec sp ov) (.list (items.map ofV)) (ofOptBool pre) =
       (sp.filter ov pre (items.map fun v => (v, v))).map (fun l => PyVal.iter (l.map ofV)) := by
   unfold Gen.PySrc.Specifier.filter Spec.filter
-  simp only []
-  rw [pre_default_jp sp ov pre]
-  simp only [kw_value, ok_bind, iterate_list]
-  have hstep : ∀ pre' : Option Bool, StepSpec sp ov pre' (fun version __s => do
-        let parsed_version ← Gen.PySrc._coerce_version version
-        let __do_lift ← Gen.PySrc.Specifier.contains (ofSpec sp ov) parsed_version (PyVal.bool (pre'.getD true))
-        if truthy __do_lift = true then do
-            let __do_lift ← (do
-                let __b2 ← Gen.PySrc.Version.is_prerelease parsed_version
-                if truthy __b2 = true then do
-                    let __do_lift ← (if truthy (ofOptBool pre') = true then pure (ofOptBool pre')
-                        else Gen.PySrc.Specifier.prereleases (ofSpec sp ov))
-                    pure (PyVal.bool !truthy __do_lift)
-                  else pure __b2)
-            if truthy __do_lift = true then do
-                let found_prereleases ← list_append __s.snd.snd.snd version
-                pure (ForInStep.yield (parsed_version, __s.snd.fst, __s.snd.snd.fst, found_prereleases))
-              else
-                pure (ForInStep.yield (parsed_version, __s.snd.fst ++ [version], PyVal.bool true, __s.snd.snd.snd))
-          else pure (ForInStep.yield (parsed_version, __s.snd.fst, __s.snd.snd.fst, __s.snd.snd.snd))) := by
-    intro pre' v hv pv0 ys fs
-    have hc := Specifier.contains_eq_model sp ov v hv (some (pre'.getD true))
-    simp only [ofOptBool] at hc
-    simp only [ofV, _coerce_version_eq_model, ok_bind, hc, Version.is_prerelease_eq_model, truthy_bool,
-      Specifier.prereleases_eq_model]
-    cases hcon : sp.contains ov v (some (pre'.getD true)) with
-    | error e => rfl
-    | ok c =>
-      cases c with
-      | false => simp [Except.map]
-      | true =>
-        simp only [Except.map, ok_bind, truthy_bool, if_true]
-        cases hp : v.isPre with
-        | false => simp
-        | true =>
-          rcases pre' with _ | _ | _
-          · cases ho : sp.prereleases ov with
-            | error e => simp [ofOptBool, Except.map, bind, Except.bind]
-            | ok own => cases own <;> simp [ofOptBool, Except.map, bind, Except.bind]
-          · cases ho : sp.prereleases ov with
-            | error e => simp [ofOptBool, Except.map, bind, Except.bind]
-            | ok own => cases own <;> simp [ofOptBool, Except.map, bind, Except.bind]
-          · simp [ofOptBool]
-  cases pre with
-  | none => exact filter_aux sp ov ov _ (hstep ov) items hw
-  | some b => exact filter_aux sp ov (some b) _ (hstep (some b)) items hw
+  rcases pre with _ | _ | _ <;> rcases ov with _ | _ | _ <;>
+    simp only [ofOptBool, isNone_none, isNone_bool, if_true, if_false, Bool.not_true, Bool.not_false, Bool.false_eq_true,
+      getattr_spec_pre, ok_bind, pure_ok, iterate_list, truthy_bool, truthy_none] <;>
+    (first
+      | refine filter_aux (fun t => t) sp _ _ _ _ ?_ ?_ items hw
+      | refine filter_aux (fun t : FState => (t.1, t.2.1, t.2.2.2, t.2.2.1)) sp _ _ _ _ ?_ ?_ items hw
+     · -- one iteration
+       intro v hv pv0 ys fs
+       have hc : ∀ (ov : Option Bool) (b : Bool), Gen.PySrc.Specifier.contains (ofSpec sp ov) (ofVer "Version" v) (.bool b) =
+           (sp.contains ov v (some b)).map PyVal.bool :=
+         fun ov b => by simpa [ofOptBool] using Specifier.contains_eq_model sp ov v hv (some b)
+       simp only [ofV, _coerce_version_eq_model, ok_bind, hc, Version.is_prerelease_eq_model, truthy_bool, truthy_none,
+         Specifier.prereleases_eq_model, Option.getD, pure_ok, if_true, if_false, Bool.false_eq_true]
+       rcases hcon : sp.contains _ v _ with _ | _ | _ <;> cases hp : v.isPre <;> rcases ho : sp.prereleases _ with _ | _ | _ <;>
+         src_simp [hcon, hp, ho, bind, Except.bind, pure, Except.pure]
+     · -- after the loop
+       intro pv ys fs
+       rcases ys with _ | ⟨y, ys⟩ <;> rcases fs with _ | ⟨f, fs⟩ <;>
+         src_simp [forIn_yield_each, pure, Except.pure])
 
 end Src
